@@ -4,6 +4,7 @@ One-execution context: fresh circuit, fresh virtual loop and clock, captured log
 from __future__ import annotations
 
 import asyncio
+import gc
 import logging
 
 import edzed
@@ -43,6 +44,8 @@ class Sim:
         result = sim.run(driver_coroutine)
     """
 
+    _count = 0
+
     def __init__(self, chooser=None, *, start_us=0, base_unix_us=1_000_000_000_000,
                  cron=False, read_lat_us=1, loop_cls=VLoop, **loopkw):
         self.chooser = chooser
@@ -69,6 +72,12 @@ class Sim:
                 VLoop.shutdown_leftovers(self.loop)
         finally:
             vclock.uninstall()
+            self.loop = None
+            Sim._count += 1
+            if Sim._count % 64 == 0:
+                # cyclic garbage keeps finished tasks in asyncio's global weak set and makes
+                # all_tasks() slower and slower; collect regularly (automatic gc is off)
+                gc.collect()
             try:
                 asyncio.events._set_running_loop(None)
             except Exception:   # pylint: disable=broad-except
